@@ -51,6 +51,10 @@ var escSets = []escSet{
 	{"EscapeForHTML", true, false, []jsontext.Options{jsontext.EscapeForHTML(true)}},
 	{"EscapeForJS", false, true, []jsontext.Options{jsontext.EscapeForJS(true)}},
 	{"EscapeForHTML+JS", true, true, []jsontext.Options{jsontext.EscapeForHTML(true), jsontext.EscapeForJS(true)}},
+	// an option that is present but false behaves as if it were absent
+	{"EscapeForHTML(false), EscapeForJS(false)", false, false, []jsontext.Options{jsontext.EscapeForHTML(false), jsontext.EscapeForJS(false)}},
+	{"EscapeForHTML(true), EscapeForJS(true) then (false)", true, false, []jsontext.Options{jsontext.EscapeForHTML(true), jsontext.EscapeForJS(true), jsontext.EscapeForJS(false)}},
+	{"EscapeForJS(true), EscapeForHTML(true) then (false)", false, true, []jsontext.Options{jsontext.EscapeForJS(true), jsontext.EscapeForHTML(true), jsontext.EscapeForHTML(false)}},
 }
 
 func jopts(o []jsontext.Options, extra ...jsonv2.Options) []jsonv2.Options {
@@ -661,7 +665,7 @@ const crit40 = "\"\\/<>&'a0 u\x00\x08\t\n\f\r\x1f\x7f\x80\xbf\xc0\xc2\xc3\xa9\xe
 const crit16 = "\"\\<a\x1f\x80\xbf\xc2\xe2\xa8\xed\xa0\xf0\x90\xf4\xff"
 
 func Run(r *evid.Run) {
-	r.Rule("Go strings: every single byte; every string of <=L3 bytes over a 40-byte critical alphabet and of 4 bytes over a 16-byte one (covers every ill-formed 2/3/4-byte prefix class: overlongs, surrogate encodings, > U+10FFFF, truncations); every code point (thorough) / every code point < U+3000 plus plane and surrogate boundaries (quick) - each through AppendQuote, WriteToken(String), Marshal(string), map key, TextMarshaler, TextAppender key, and for well-formed strings two raw spellings (minimal, all-\\u) through MarshalJSON, Value.Format, AppendFormat, WriteValue (value and name) with/without PreserveRawStrings, and a reflect.StructOf field name, x {none, EscapeForHTML, EscapeForJS, both} x AllowInvalidUTF8. JSON literals: every string body of views A3 and S through AppendUnquote, ReadToken, Unmarshal into string/any/map key x AllowInvalidUTF8. Oracle: independent minimal quoter/unquoter (refjson). evaluations = strings/literals checked (each through all paths); distinct_nontrivial = distinct inputs that need escaping, are ill-formed, or contain an escape sequence")
+	r.Rule("Go strings: every single byte; every string of <=L3 bytes over a 40-byte critical alphabet and of 4 bytes over a 16-byte one (covers every ill-formed 2/3/4-byte prefix class: overlongs, surrogate encodings, > U+10FFFF, truncations); every code point (thorough) / every code point < U+3000 plus plane and surrogate boundaries (quick) - each through AppendQuote, WriteToken(String), Marshal(string), map key, TextMarshaler, TextAppender key, and for well-formed strings two raw spellings (minimal, all-\\u) through MarshalJSON, Value.Format, AppendFormat, WriteValue (value and name) with/without PreserveRawStrings, and a reflect.StructOf field name, x {none, EscapeForHTML, EscapeForJS, both, both spelled out as false, each switched on and off again} x AllowInvalidUTF8. JSON literals: every string body of views A3 and S through AppendUnquote, ReadToken, Unmarshal into string/any/map key x AllowInvalidUTF8. Oracle: independent minimal quoter/unquoter (refjson). evaluations = strings/literals checked (each through all paths); distinct_nontrivial = distinct inputs that need escaping, are ill-formed, or contain an escape sequence")
 	r.Assume("reference quoter/unquoter internal/refjson (RFC 8259 section 7, RFC 8785 section 3.2.2.2, Unicode table 3-7)")
 	L3 := 2
 	if r.Tier == "thorough" {
